@@ -3,6 +3,7 @@
 package c18
 
 import (
+	"bytes"
 	"crypto"
 	"crypto/rsa"
 	"fmt"
@@ -53,7 +54,7 @@ func (a *arena) intact() bool { return lib.Eq(a.buf, a.orig) }
 // signature yields the same valid signature.
 func TestVerifArgumentsAndStateReuse(t *testing.T) {
 	const mon = "TestVerifArgumentsAndStateReuse"
-	lib.Mandatory("args:brsa-runs", "args:pbrsa-runs", "args:finalize-after-refused")
+	lib.Mandatory("args:brsa-runs", "args:pbrsa-runs", "args:finalize-after-refused", "args:short-read-randomness")
 	stdOpts := func(saltLen int) *rsa.PSSOptions { return &rsa.PSSOptions{SaltLength: saltLen, Hash: crypto.SHA384} }
 
 	// ---------------- blindrsa
@@ -127,6 +128,19 @@ func TestVerifArgumentsAndStateReuse(t *testing.T) {
 		if e1 != nil || e2 != nil || !lib.Eq(b1, b2) {
 			viol("result-depends-on-argument-layout", "blindrsa.Client.Blind", "err1", e1, "err2", e2)
 			return
+		}
+		// the randomness delivered in short pieces gives the same blinded message
+		{
+			rb := lib.NewRng("c18/args/blind-bytes/"+id, 0).Bytes(1 << 14)
+			w1, _, we1 := client.Blind(bytes.NewReader(rb), lib.Clone(prepared))
+			w2, _, we2 := client.Blind(&lib.ShortReader{R: bytes.NewReader(rb)}, lib.Clone(prepared))
+			pr1, pe1 := client.Prepare(bytes.NewReader(rb), lib.Clone(msg))
+			pr2, pe2 := client.Prepare(&lib.ShortReader{R: bytes.NewReader(rb)}, lib.Clone(msg))
+			lib.Count("args:short-read-randomness")
+			if we1 != nil || we2 != nil || pe1 != nil || pe2 != nil || !lib.Eq(w1, w2) || !lib.Eq(pr1, pr2) {
+				viol("result-depends-on-how-the-randomness-is-delivered", "blindrsa.Client.Blind/Prepare", "blind_same", lib.Eq(w1, w2), "prepare_same", lib.Eq(pr1, pr2), "errs", []any{we1, we2, pe1, pe2})
+				return
+			}
 		}
 		// the caller re-uses its buffer after Blind: the state must not be tied to it
 		for i := range a.buf {
